@@ -151,25 +151,27 @@ Definition scan (left : bool) (filt : sop -> bool) (orig : grid) (its : list (Z 
                new.append(work); new.append(circ)
            all = new
        return sorted(all, key=num_operations)[:-1]
-   NOTE: the compensation is applied for both scan directions (scan.py guards it). *)
-Fixpoint tree_expand (orig_nc : nat) (all : list grid) (co : Z * sop) : res (list grid) :=
+   NOTE: the code applies the compensation for BOTH scan directions (scan.py guards it with
+   `if self.start_from_left`).  `comp` = is the compensation applied: `true` for the code as
+   it stands; fixes/C10.T1.patch makes it `start_from_left`. *)
+Fixpoint tree_expand (comp : bool) (orig_nc : nat) (all : list grid) (co : Z * sop) : res (list grid) :=
   match all with
   | [] => Ok []
   | circ :: rest =>
     let '(c, o) := co in
-    match pop circ (c - (Z.of_nat orig_nc - Z.of_nat (num_cycles circ)))%Z (first_qudit o) with
+    match pop circ (if comp then c - (Z.of_nat orig_nc - Z.of_nat (num_cycles circ)) else c)%Z (first_qudit o) with
     | None => IndexErr
-    | Some (_, work) => match tree_expand orig_nc rest co with
+    | Some (_, work) => match tree_expand comp orig_nc rest co with
                         | Ok r => Ok (work :: circ :: r)
                         | IndexErr => IndexErr
                         end
     end
   end.
-Fixpoint tree_circs_aux (orig_nc : nat) (all : list grid) (chunk : list (Z * sop)) : res (list grid) :=
+Fixpoint tree_circs_aux (comp : bool) (orig_nc : nat) (all : list grid) (chunk : list (Z * sop)) : res (list grid) :=
   match chunk with
   | [] => Ok all
-  | co :: chunk' => match tree_expand orig_nc all co with
-                    | Ok a => tree_circs_aux orig_nc a chunk'
+  | co :: chunk' => match tree_expand comp orig_nc all co with
+                    | Ok a => tree_circs_aux comp orig_nc a chunk'
                     | IndexErr => IndexErr
                     end
   end.
@@ -181,8 +183,8 @@ Fixpoint insert_by (x : grid) (l : list grid) : list grid :=
   | y :: l' => if Nat.leb (num_ops x) (num_ops y) then x :: l else y :: insert_by x l'
   end.
 Definition sort_by_ops (l : list grid) : list grid := fold_right insert_by [] l.
-Definition tree_circs (orig_nc : nat) (base : grid) (chunk : list (Z * sop)) : res (list grid) :=
-  match tree_circs_aux orig_nc [base] chunk with
+Definition tree_circs (comp : bool) (orig_nc : nat) (base : grid) (chunk : list (Z * sop)) : res (list grid) :=
+  match tree_circs_aux comp orig_nc [base] chunk with
   | Ok a => Ok (removelast (sort_by_ops a))
   | IndexErr => IndexErr
   end.
@@ -204,11 +206,11 @@ Fixpoint chunks (fuel d : nat) (l : list (Z * sop)) : list (list (Z * sop)) :=
            end
   end.
 
-Fixpoint tree_loop (orig_nc : nat) (chs : list (list (Z * sop))) (s : st) : res st :=
+Fixpoint tree_loop (comp : bool) (orig_nc : nat) (chs : list (list (Z * sop))) (s : st) : res st :=
   match chs with
   | [] => Ok s
   | ch :: chs' =>
-    match tree_circs orig_nc (s_grid s) ch with
+    match tree_circs comp orig_nc (s_grid s) ch with
     | IndexErr => IndexErr
     | Ok cands =>
       let k := s_calls s in
@@ -216,12 +218,12 @@ Fixpoint tree_loop (orig_nc : nat) (chs : list (list (Z * sop))) (s : st) : res 
                 | Some (c, v) => mkSt c v (k + length cands)
                 | None => mkSt (s_grid s) (s_ver s) (k + length cands)
                 end in
-      tree_loop orig_nc chs' s'
+      tree_loop comp orig_nc chs' s'
     end
   end.
 (* tree_depth d >= 1; `its` as for scan *)
-Definition treescan (d : nat) (orig : grid) (its : list (Z * sop)) : res st :=
-  tree_loop (num_cycles orig) (chunks (S (length its)) d its) (st0 orig).
+Definition treescan (comp : bool) (d : nat) (orig : grid) (its : list (Z * sop)) : res st :=
+  tree_loop comp (num_cycles orig) (chunks (S (length its)) d its) (st0 orig).
 
 (* ---- ExhaustiveGateRemovalPass ----------------------------------------------------------
    frontier = [circuit]; while frontier: expand every element by every single removal,
